@@ -1,0 +1,33 @@
+//go:build verif
+// +build verif
+
+package btc
+
+import (
+	"github.com/btcsuite/btcd/wire"
+	"github.com/polynetwork/poly/native"
+)
+
+// Thin exported wrappers for the verification harness (build tag verif); they only call
+// existing unexported code.
+
+func VerifChooseUtxos(service *native.NativeService, chainID uint64, amount int64, outs []*wire.TxOut, rk []byte, m, n int) ([]*Utxo, int64, int64, error) {
+	return chooseUtxos(service, chainID, amount, outs, rk, m, n)
+}
+
+func VerifMakeBtcTx(service *native.NativeService, chainID uint64, amounts map[string]int64, fromTxHash []byte,
+	fromChainID uint64, redeemScript, rk []byte) error {
+	return makeBtcTx(service, chainID, amounts, fromTxHash, fromChainID, redeemScript, rk)
+}
+
+func VerifPutUtxos(service *native.NativeService, chainID uint64, utxoKey string, utxos *Utxos) {
+	putUtxos(service, chainID, utxoKey, utxos)
+}
+
+func VerifGetUtxos(service *native.NativeService, chainID uint64, utxoKey string) (*Utxos, error) {
+	return getUtxos(service, chainID, utxoKey)
+}
+
+func VerifGetStxos(service *native.NativeService, chainID uint64, utxoKey string) (*Utxos, error) {
+	return getStxos(service, chainID, utxoKey)
+}
